@@ -12,7 +12,7 @@ np.seterr(all="ignore")
 warnings.filterwarnings("ignore")
 
 THEOREMS = ["Yaw.C18.requests_cover_once", "Yaw.C18.requests_bounded", "Yaw.C18.requests_consecutive",
-            "Yaw.C18.probe_and_passes_pinned", "Yaw.C18.Pq.next_flatten", "Yaw.C18.Pq.run_flatten", "Yaw.C18.Pq.next_length",
+            "Yaw.C18.probe_and_passes_pinned", "Yaw.C18.file_slices_eq_df", "Yaw.C18.Pq.next_flatten", "Yaw.C18.Pq.run_flatten", "Yaw.C18.Pq.next_length",
             "Yaw.C18.Pq.next_lazy", "Yaw.C18.Pq.parquet_pinned"]
 RULE = ("instrumented data-frame-like source (logs every slice and every whole-column access) fed to "
         "Catalog.from_dataframe for lengths n in {k*c-1, k*c, k*c+1, < c, 1} x chunk sizes 1..n+2 x patch modes "
